@@ -27,6 +27,10 @@ class Contract:
         self.no_frame_check = kw.pop('no_frame_check', False)
         self.timeout = kw.pop('timeout', None)
         self.block = kw.pop('block', None)          # verify only this loop ordinal of the function (block contract)
+        self.blocks = kw.pop('blocks', {})          # name -> dict(where=, requires=, ensures=, modifies=, locals=, raises=)
+        self.split = kw.pop('split', None)          # [(obligation-name substring, {expr: (lo, hi)})]: solver-side case split
+        self.cases = kw.pop('cases', None)          # name -> list of concrete values: top-level case split
+        self.case_chunk = kw.pop('case_chunk', None)  # which case key splits work across processes
         self.name = kw.pop('name', None)            # label used in obligation names (defaults to function short name)
         if kw:
             raise TypeError(f'unknown contract keys {sorted(kw)} for {key}')
@@ -42,6 +46,7 @@ class Lemma:
         self.reason = kw.get('reason', '')
         self.triggers = kw.get('triggers', None)
         self.props = kw.get('props', [])
+        self.induct = kw.get('induct')
         self.ranges = kw.get('ranges', {})   # name -> (lo, hi) inclusive, for by='enum' and as implicit hypotheses
 
 
